@@ -515,11 +515,15 @@ class Specification(SpecificationBase):
             implied[ancestor] = ()
 
         # Now, advise our dependents of change
-        # (being careful not to create the WeakKeyDictionary if not needed):
-        for dependent in tuple(
-            self._dependents.keys() if self._dependents else ()
+        # (being careful not to create the WeakKeyDictionary if not needed).
+        # ``keyrefs`` copies the keys in one step; iterating ``keys()``
+        # fails if another thread subscribes meanwhile, e.g. a lookup.
+        for ref in (
+            self._dependents.keyrefs() if self._dependents else ()
         ):
-            dependent.changed(originally_changed)
+            dependent = ref()
+            if dependent is not None:
+                dependent.changed(originally_changed)
 
         # Just in case something called get() at some point
         # during that process and we have a cycle of some sort
